@@ -5,6 +5,7 @@ package common
 import (
 	"bytes"
 	"fmt"
+	"math/big"
 	"testing"
 
 	"github.com/MixinNetwork/mixin/crypto"
@@ -45,7 +46,11 @@ func vpC06EditBytes(t *rapid.T, b []byte, label string) []byte {
 	if len(out) == 0 {
 		return []byte{rapid.Byte().Draw(t, label+"_new")}
 	}
-	switch rapid.IntRange(0, 3).Draw(t, label+"_op") {
+	op := rapid.IntRange(0, 3).Draw(t, label+"_op")
+	if op == 0 && len(out) >= 65535 {
+		op = 1
+	}
+	switch op {
 	case 0:
 		return append(out, rapid.Byte().Draw(t, label+"_app"))
 	case 1:
@@ -60,16 +65,20 @@ func vpC06EditBytes(t *rapid.T, b []byte, label string) []byte {
 
 func vpC06EditInt(t *rapid.T, x Integer, label string) Integer {
 	var v Integer
+	if x.i.BitLen() > 8*60000 { // stay inside the 16-bit length field
+		v.i.Rsh(&x.i, 8)
+		return v
+	}
 	switch rapid.IntRange(0, 2).Draw(t, label+"_op") {
 	case 0:
-		v.i.Add(&x.i, vpIntegerFromBig(vpGenBig(t, label+"_d")).bigOrOne())
+		v.i.Add(&x.i, vpC06BigOrOne(vpIntegerFromBig(vpGenBig(t, label+"_d"))))
 	case 1:
 		v.i.Lsh(&x.i, 8)
 		if v.i.Sign() == 0 {
 			v.i.SetInt64(256)
 		}
 	default:
-		v.i.Xor(&x.i, vpIntegerFromBig(vpGenBig(t, label+"_x")).bigOrOne())
+		v.i.Xor(&x.i, vpC06BigOrOne(vpIntegerFromBig(vpGenBig(t, label+"_x"))))
 	}
 	return v
 }
@@ -348,11 +357,13 @@ func vpC06Edit(t *rapid.T, base *SignedTransaction, edit string) *SignedTransact
 	return e
 }
 
-func (x Integer) bigOrOne() *bigInt {
+var vpC06BigOne = big.NewInt(1)
+
+func vpC06BigOrOne(x Integer) *big.Int {
 	if x.i.Sign() == 0 {
-		return bigOne
+		return vpC06BigOne
 	}
-	return &x.i
+	return new(big.Int).Set(&x.i)
 }
 
 func TestVP_C06_payload_hash(t *testing.T) {
@@ -604,6 +615,16 @@ func TestVP_C06_injectivity(t *testing.T) {
 			pms := make([][]byte, 8)
 			for i := range txs {
 				txs[i] = vpC06GenTiny(t, fmt.Sprintf("t%d", i))
+				if i >= 4 { // a structural copy (nil and empty exchanged) or a one-byte neighbour of an earlier one
+					switch rapid.IntRange(0, 2).Draw(t, fmt.Sprintf("t%d_rel", i)) {
+					case 0:
+						txs[i] = vpC06Clone(txs[i-4])
+						vpC06SwapNilEmpty(txs[i])
+					case 1:
+						txs[i] = vpC06Clone(txs[i-4])
+						txs[i].Extra = append(txs[i].Extra, 0)
+					}
+				}
 				views[i] = vpC06PayloadView(&txs[i].Transaction)
 				pms[i], _ = vpC06PayloadOf(t, txs[i])
 			}
@@ -646,7 +667,7 @@ func vpC06GenTiny(t *rapid.T, label string) *SignedTransaction {
 	hs := []crypto.Hash{{}, {1}}
 	bs := [][]byte{nil, {0}, {0, 0}, {0x77, 0x77}}
 	ss := []string{"", "a", "ab", "b"}
-	amts := []Integer{Zero, vpIntegerFromBig(bigOne), NewInteger(1)}
+	amts := []Integer{Zero, vpIntegerFromBig(vpC06BigOne), NewInteger(1)}
 	pick := func(n int, l string) int { return rapid.IntRange(0, n-1).Draw(t, label+l) }
 	tx := &SignedTransaction{}
 	tx.Version = TxVersionHashSignature
@@ -677,4 +698,44 @@ func vpC06GenTiny(t *rapid.T, label string) *SignedTransaction {
 	}
 	tx.Extra = bs[pick(4, "extra")]
 	return tx
+}
+
+// vpC06SwapNilEmpty exchanges nil and empty slices everywhere (same structure).
+func vpC06SwapNilEmpty(tx *SignedTransaction) {
+	sw := func(b []byte) []byte {
+		if b == nil {
+			return []byte{}
+		}
+		if len(b) == 0 {
+			return nil
+		}
+		return b
+	}
+	tx.Extra = sw(tx.Extra)
+	if tx.References == nil {
+		tx.References = []crypto.Hash{}
+	} else if len(tx.References) == 0 {
+		tx.References = nil
+	}
+	if tx.Inputs == nil {
+		tx.Inputs = []*Input{}
+	} else if len(tx.Inputs) == 0 {
+		tx.Inputs = nil
+	}
+	if tx.Outputs == nil {
+		tx.Outputs = []*Output{}
+	} else if len(tx.Outputs) == 0 {
+		tx.Outputs = nil
+	}
+	for _, in := range tx.Inputs {
+		in.Genesis = sw(in.Genesis)
+	}
+	for _, o := range tx.Outputs {
+		o.Script = Script(sw(o.Script))
+		if o.Keys == nil {
+			o.Keys = []*crypto.Key{}
+		} else if len(o.Keys) == 0 {
+			o.Keys = nil
+		}
+	}
 }
